@@ -10,6 +10,7 @@ import rx
 import rx.operators as ops
 import rxsci.io.file as file
 import rxsci.framing.line as line
+from rxsci.data.codec import encode as _encode
 
 
 def parse_iso_date(i):
@@ -357,7 +358,7 @@ def dump_to_file(
                 separator=separator, escapechar=escapechar,
                 newline=newline
             ),
-            ops.map(lambda i: i.encode(encoding) if encoding is not None else i),
+            _encode(encoding) if encoding is not None else ops.map(lambda i: i),
             file.write(
                 file=filename,
                 mode=mode,
